@@ -1,7 +1,7 @@
 /-
   Proofs.C03ExtAcc — the accumulators of `$group` against the oracle of Spec/PipelineExt.lean:
-  `$min` / `$max` (values of one class), `$addToSet` (scalar truthy values), `$sum` (integers among
-  non-numbers), `$first` / `$last` (value present on the first / last document).
+  `$min` / `$max` (the BSON order on scalars of any types), `$addToSet` (scalar values, no
+  boolean), `$sum` (integers among non-numbers), `$first` / `$last`.
 -/
 import Proofs.C03Acc
 import Proofs.C03GroupKeys
@@ -31,153 +31,51 @@ theorem specExtremum_eq (isMax : Bool) (vals : List (Option Val)) :
        | [] => .null
        | y :: r => r.foldl (pick isMax) y) := rfl
 
-theorem extremum_num (isMax : Bool) : ∀ (r : List Val) (best : Val),
-    (∀ v ∈ r, v.isNumber = true) → best.isNumber = true →
-    Expr.extremum isMax r best = r.foldl (pick isMax) best
+/-- on the values the BSON order places, `BsonComparable.__lt__` is that order -/
+theorem bsonLt_scalar (a b : Val) (ha : orderScalar a = true) (hb : orderScalar b = true) :
+    bsonCompare .lt a b true = .ok (valLt a b) := by
+  have ha' : valReasons a = [] := by simpa [orderScalar] using ha
+  have hb' : valReasons b = [] := by simpa [orderScalar] using hb
+  have := keyLt_eq_spec ⟨1, a⟩ ⟨1, b⟩ ha' hb'
+  simpa [MongoModel.keyLt, Spec.Order.keyLt] using this
+
+theorem pick_scalar (isMax : Bool) (best v : Val) (hb : orderScalar best = true)
+    (hv : orderScalar v = true) : orderScalar (pick isMax best v) = true := by
+  unfold pick; repeat' split
+  all_goals assumption
+
+theorem accMinMaxGo_eq (isMax : Bool) : ∀ (r : List Val) (best : Val),
+    (∀ v ∈ r, orderScalar v = true) → orderScalar best = true →
+    accMinMaxGo isMax r best = .ok (r.foldl (pick isMax) best)
   | [], _, _, _ => rfl
   | v :: r, best, hr, hb => by
     have hv := hr v List.mem_cons_self
-    have hr' : ∀ x ∈ r, x.isNumber = true := fun x hx => hr x (List.mem_cons_of_mem _ hx)
-    have step : Expr.extremum isMax (v :: r) best = Expr.extremum isMax r (pick isMax best v) := by
-      cases v <;> simp [Val.isNumber] at hv <;> cases best <;> simp [Val.isNumber] at hb <;>
-        cases isMax <;>
-        simp only [Expr.extremum, Val.num?, pick, valLt, typeOrder, Num.lt, ne_eq,
-          not_true_eq_false, if_false, Bool.false_eq_true, if_true, pow_zero, mul_one] <;>
-        split <;> simp_all
-    rw [step, List.foldl_cons]
-    refine extremum_num isMax r _ hr' ?_
-    unfold pick; repeat' split
-    all_goals assumption
+    have hr' : ∀ x ∈ r, orderScalar x = true := fun x hx => hr x (List.mem_cons_of_mem _ hx)
+    have ih := accMinMaxGo_eq isMax r (pick isMax best v) hr' (pick_scalar isMax best v hb hv)
+    cases isMax with
+    | true =>
+      simp only [accMinMaxGo, if_true, bsonLt_scalar best v hb hv, List.foldl_cons]
+      simpa [pick] using ih
+    | false =>
+      simp only [accMinMaxGo, Bool.false_eq_true, if_false, bsonLt_scalar v best hv hb,
+        List.foldl_cons]
+      simpa [pick] using ih
 
-theorem extremumStr_eq (isMax : Bool) : ∀ (ss : List String) (s : String),
-    Val.str (Expr.extremumStr isMax ss s) = (ss.map Val.str).foldl (pick isMax) (.str s)
-  | [], _ => rfl
-  | t :: ss, s => by
-    simp only [Expr.extremumStr, List.map_cons, List.foldl_cons]
-    have : pick isMax (.str s) (.str t) =
-        .str (if (if isMax then s < t else t < s) then t else s) := by
-      cases isMax <;> simp [pick, valLt, typeOrder, -String.lt_iff_ltb] <;> split <;> rfl
-    rw [this]
-    by_cases hc : (if isMax then s < t else t < s)
-    · simp only [hc, if_true]; exact extremumStr_eq isMax ss t
-    · simp only [hc, if_false]; exact extremumStr_eq isMax ss s
-
-theorem strsOf_all : ∀ (ys : List Val), ys.all isStr = true →
-    ∃ ss, ys = ss.map Val.str ∧ Expr.strsOf ys = some ss
-  | [], _ => ⟨[], rfl, rfl⟩
-  | y :: r, h => by
-    simp only [List.all_cons, Bool.and_eq_true] at h
-    obtain ⟨ss, h1, h2⟩ := strsOf_all r h.2
-    cases y <;> simp [isStr] at h
-    rename_i s
-    exact ⟨s :: ss, by simp [h1], by simp [Expr.strsOf, h2]⟩
-
-theorem dateExtremum_eq (isMax : Bool) : ∀ (r : List Val) (b : Int),
-    (∀ v ∈ r, isNaiveDate v = true) →
-    dateExtremum isMax r (.date b none) = r.foldl (pick isMax) (.date b none)
-  | [], _, _ => rfl
-  | v :: r, b, hr => by
-    have hv := hr v List.mem_cons_self
-    have hr' : ∀ x ∈ r, isNaiveDate x = true := fun x hx => hr x (List.mem_cons_of_mem _ hx)
-    cases v <;> simp [isNaiveDate] at hv
-    rename_i u o
-    cases o with
-    | some _ => simp at hv
-    | none =>
-      simp only [dateExtremum, List.foldl_cons]
-      have : pick isMax (.date b none) (.date u none) =
-          (if (if isMax then b < u else u < b) then Val.date u none else .date b none) := by
-        cases isMax <;> simp only [pick, valLt, typeOrder, dateUtc, ne_eq, not_true_eq_false,
-          if_false, Bool.false_eq_true, if_true]
-        · by_cases h : u < b <;> simp [h]
-        · by_cases h : b < u <;> simp [h]
-      rw [this]
-      by_cases hc : (if isMax then b < u else u < b)
-      · simp only [hc, if_true]; exact dateExtremum_eq isMax r u hr'
-      · simp only [hc, if_false]; exact dateExtremum_eq isMax r b hr'
-
-theorem all_of_all {p q : Val → Bool} {l : List Val} (h : l.all p = true)
-    (hpq : ∀ v, p v = true → q v = true) : l.all q = true := by
-  simp only [List.all_eq_true] at h ⊢
-  exact fun v hv => hpq v (h v hv)
-
-theorem any_false_of_all {p q : Val → Bool} {l : List Val} (h : l.all p = true)
-    (hpq : ∀ v, p v = true → q v = false) : l.any q = false := by
-  simp only [List.all_eq_true] at h
-  rw [List.any_eq_false]
-  intro v hv
-  simp [hpq v (h v hv)]
-
-theorem ite_any_false {α} {l : List Val} {p q : Val → Bool} (hall : l.all p = true)
-    (hpq : ∀ v, p v = true → q v = false) (a b : α) : (if l.any q = true then a else b) = b := by
-  rw [any_false_of_all hall hpq]; rfl
-
-theorem ite_all_true {α} {l : List Val} {p q : Val → Bool} (hall : l.all p = true)
-    (hpq : ∀ v, p v = true → q v = true) (a b : α) : (if l.all q = true then a else b) = a := by
-  rw [all_of_all hall hpq]; rfl
-
-theorem ite_all_head_false {α} {y : Val} {l : List Val} {q : Val → Bool} (hy : q y = false)
-    (a b : α) : (if (y :: l).all q = true then a else b) = b := by
-  simp [hy]
-
-/-- **`$min` / `$max`** over values of one class (numbers, strings or naive dates; nulls are
-    skipped): the smallest / largest value in the BSON order -/
-theorem acc_minmax (isMax : Bool) (values : List Val) (h : oneClass values = true) :
+/-- **`$min` / `$max`** over scalar values of ANY types (nulls are skipped): the smallest / largest
+    value in the BSON order, the earliest among equals -/
+theorem acc_minmax (isMax : Bool) (values : List Val) (h : values.all orderScalar = true) :
     accMinMax isMax values = .ok (specExtremum isMax (values.map some)) := by
   rw [specExtremum_eq, specPush_map_some]
   unfold accMinMax
   rw [notNull_eq]
-  unfold oneClass at h
-  generalize values.filter notNull = ys at h
-  match ys, h with
+  have hf : ∀ v ∈ values.filter notNull, orderScalar v = true := fun v hv =>
+    List.all_eq_true.mp h v (List.mem_filter.mp hv).1
+  generalize values.filter notNull = ys at hf
+  match ys, hf with
   | [], _ => rfl
-  | [y], _ => rfl
-  | y :: z :: r, h =>
-    simp only [Bool.or_eq_true] at h
-    rcases h with (hn | hs) | hd
-    · have hy : y.isNumber = true := by simp only [List.all_cons, Bool.and_eq_true] at hn; exact hn.1
-      simp only []
-      rw [ite_any_false hn (fun v hv => by cases v <;> simp_all [Val.isNumber, Val.isArr]),
-        ite_any_false hn (fun v hv => by cases v <;> simp_all [Val.isNumber]),
-        ite_all_true hn (fun v hv => by cases v <;> simp_all [Val.isNumber, nativeClass])]
-      rw [extremum_num isMax (z :: r) y (by
-        intro v hv
-        simp only [List.all_eq_true] at hn
-        exact hn v (List.mem_cons_of_mem _ hv)) hy]
-    · have hy : isStr y = true := by simp only [List.all_cons, Bool.and_eq_true] at hs; exact hs.1
-      simp only []
-      rw [ite_any_false hs (fun v hv => by cases v <;> simp_all [isStr, Val.isArr]),
-        ite_any_false hs (fun v hv => by cases v <;> simp_all [isStr]),
-        ite_all_head_false (by cases y <;> simp_all [isStr, nativeClass]),
-        ite_all_true hs (fun v hv => by cases v <;> simp_all [isStr, nativeClass])]
-      obtain ⟨ss, e1, e2⟩ := strsOf_all _ hs
-      rw [e2]
-      cases ss with
-      | nil => simp at e1
-      | cons s ss =>
-        simp only [List.map_cons, List.cons.injEq] at e1
-        obtain ⟨rfl, e1⟩ := e1
-        simp only [extremumStr_eq, e1]
-    · have hy : isNaiveDate y = true := by
-        simp only [List.all_cons, Bool.and_eq_true] at hd; exact hd.1
-      have nd : ∀ v, isNaiveDate v = true → ∃ u, v = .date u none := by
-        intro v hv
-        cases v <;> simp [isNaiveDate] at hv
-        rename_i u o
-        cases o with
-        | some _ => simp at hv
-        | none => exact ⟨u, rfl⟩
-      simp only []
-      rw [ite_any_false hd (fun v hv => by obtain ⟨u, rfl⟩ := nd v hv; rfl),
-        ite_any_false hd (fun v hv => by obtain ⟨u, rfl⟩ := nd v hv; rfl),
-        ite_all_head_false (by obtain ⟨u, rfl⟩ := nd y hy; rfl),
-        ite_all_head_false (by obtain ⟨u, rfl⟩ := nd y hy; rfl),
-        ite_all_true hd (fun v hv => by obtain ⟨u, rfl⟩ := nd v hv; rfl)]
-      obtain ⟨u, rfl⟩ := nd y hy
-      rw [dateExtremum_eq isMax (z :: r) u (by
-        intro v hv
-        simp only [List.all_eq_true] at hd
-        exact hd v (List.mem_cons_of_mem _ hv))]
+  | y :: r, hf =>
+    exact accMinMaxGo_eq isMax r y (fun v hv => hf v (List.mem_cons_of_mem _ hv))
+      (hf y List.mem_cons_self)
 
 /-! ### `$addToSet` -/
 
@@ -198,14 +96,9 @@ theorem addToSetLoop_eq : ∀ (vs acc : List Val), (∀ v ∈ vs, setOk v = true
       acc ++ (distinctKeys vs).filter (fun x => !acc.any (fun a => keyEq a x))
   | [], acc, _, _ => by simp [addToSetLoop, distinctKeys]
   | v :: r, acc, hvs, hacc => by
-    have hv := hvs v List.mem_cons_self
+    have hv : groupKeyOk v = true := hvs v List.mem_cons_self
     have hr : ∀ x ∈ r, setOk x = true := fun x hx => hvs x (List.mem_cons_of_mem _ hx)
-    simp only [setOk, Bool.and_eq_true] at hv
-    have he : (if v.truthy then v else Val.null) = v := by
-      rcases Bool.or_eq_true _ _ |>.mp hv.2 with h | h
-      · simp [h]
-      · cases v <;> simp_all [notNull]
-    simp only [addToSetLoop, he, pyIn_eq_any_keyEq v acc hv.1 hacc, distinctKeys,
+    simp only [addToSetLoop, pyIn_eq_any_keyEq v acc hv hacc, distinctKeys,
       List.filter_cons]
     cases hin : acc.any (fun a => keyEq a v) with
     | true =>
@@ -230,7 +123,7 @@ theorem addToSetLoop_eq : ∀ (vs acc : List Val), (∀ v ∈ vs, setOk v = true
         intro a ha
         rcases List.mem_append.mp ha with h | h
         · exact hacc a h
-        · rw [List.mem_singleton.mp h]; exact hv.1), List.filter_filter, List.append_assoc]
+        · rw [List.mem_singleton.mp h]; exact hv), List.filter_filter, List.append_assoc]
       congr 1
       rw [List.singleton_append]
       congr 1
@@ -238,8 +131,8 @@ theorem addToSetLoop_eq : ∀ (vs acc : List Val), (∀ v ∈ vs, setOk v = true
       intro x _
       simp only [List.any_append, List.any_cons, List.any_nil, Bool.or_false, Bool.not_or]
 
-/-- **`$addToSet`** over scalar values that are truthy or null: each distinct value once, by
-    first appearance -/
+/-- **`$addToSet`** over scalar values (no boolean): each distinct value once, as it is — 0, ""
+    and null included —, by first appearance -/
 theorem acc_addToSet (values : List Val) (h : ∀ v ∈ values, setOk v = true) :
     accApply "$addToSet" values = .ok (.arr (specAddToSet values)) := by
   have := addToSetLoop_eq values [] h (by simp)
@@ -248,48 +141,28 @@ theorem acc_addToSet (values : List Val) (h : ∀ v ∈ values, setOk v = true) 
 
 /-! ### `$sum` over integers mixed with non-numbers -/
 
-theorem numsOf_sumOk : ∀ (values : List Val), (∀ v ∈ values, sumOk v = true) →
-    Expr.numsOf values = (specInts (values.map some)).map Expr.PyNum.i
+theorem accNums_sumOk : ∀ (values : List Val), (∀ v ∈ values, sumOk v = true) →
+    accNums values = (specInts (values.map some)).map Expr.PyNum.i
   | [], _ => rfl
   | v :: r, h => by
     have hv := h v List.mem_cons_self
-    have ih := numsOf_sumOk r (fun x hx => h x (List.mem_cons_of_mem _ hx))
+    have ih := accNums_sumOk r (fun x hx => h x (List.mem_cons_of_mem _ hx))
     simp only [specInts] at ih ⊢
-    cases v <;> simp_all [sumOk, isBoolV, isDblV, Expr.numsOf, Expr.toPyNum]
+    cases v <;> simp_all [sumOk, isDblV, accNums]
 
 theorem specSumInt_eq (vals : List (Option Val)) :
     specSumInt vals = (specInts vals).foldl (· + ·) 0 := rfl
 
-/-- **`$sum`**: the integers are added, values that are not numbers are ignored -/
+/-- **`$sum`**: the integers are added, values that are not numbers — booleans included — are
+    ignored -/
 theorem acc_sum (values : List Val) (h : ∀ v ∈ values, sumOk v = true) :
     accApply "$sum" values = .ok (.int (specSumInt (values.map some))) := by
-  simp only [accApply, Expr.groupingOnList, if_true, Bool.true_or, decide_true,
-    numsOf_sumOk values h, sumNums_ints, bind, Except.bind, Expr.PyNum.toVal, specSumInt_eq]
+  simp only [accApply, accSum, if_true, accNums_sumOk values h, sumNums_ints, Expr.PyNum.toVal,
+    specSumInt_eq]
 
 /-! ### `$first` / `$last` -/
 
-theorem specFirst_present : ∀ (vals : List (Option Val)), firstOk vals = true →
-    specFirst ((specPush vals).map some) = specFirst vals
-  | [], _ => rfl
-  | some v :: r, _ => by simp [specFirst, specPush]
-  | none :: r, h => by
-    simp only [firstOk, List.all_eq_true, Option.isNone_iff_eq_none] at h
-    have : specPush (none :: r) = [] := by
-      simp only [specPush, List.filterMap_cons, id]
-      rw [List.filterMap_eq_nil_iff]
-      intro a ha; exact h a ha
-    rw [this]; rfl
-
-theorem specPush_reverse (vals : List (Option Val)) :
-    specPush vals.reverse = (specPush vals).reverse := by
-  simp [specPush, List.filterMap_reverse]
-
 theorem specLast_eq_first (vals : List (Option Val)) : specLast vals = specFirst vals.reverse := by
   simp [specLast, specFirst, List.head?_reverse]
-
-theorem specLast_present (vals : List (Option Val)) (h : firstOk vals.reverse = true) :
-    specLast ((specPush vals).map some) = specLast vals := by
-  rw [specLast_eq_first, specLast_eq_first, ← List.map_reverse, ← specPush_reverse]
-  exact specFirst_present _ h
 
 end MongoModel.Pipe.Proofs
